@@ -1138,6 +1138,10 @@ SRC_ITEMS = [
          params=[("schema", "obj")], attrs={"schema.illum_wavelen": "wl", "schema.medium_index": "nm"}),
     dict(file="holopy/scattering/interface.py", qualname="calc_cross_sections", kwarg="medium_wavevec", name="xsec_wavevec_src",
          rettype="R", params=[("illum_wavelen", "R"), ("medium_index", "R")]),
+    dict(file="holopy/scattering/theory/mie.py", qualname="Mie._scat_coeffs (x_arr, m_arr)", name="mie_handoff_src",
+         fn=lambda repo: __import__("harness.lib.pysrc", fromlist=["x"]).translate_segment(
+             repo, "holopy/scattering/theory/mie.py", "Mie._scat_coeffs", "mie_handoff_src", "x_arr", "m_arr", ["x_arr", "m_arr"],
+             inputs=["medium_wavevec", "medium_index"], calls={"ensure_array": ("", 1)}, opaque_exprs={"s.r": "r", "s.n": "n"})),
 ]
 
 
@@ -1182,7 +1186,7 @@ def run(ctx):
         "harness-side recording subclasses of the theories and wrappers around scatcoeffs / scatcoeffs_multi / amncalc / ampld / "
         "MieLensCalculator (module attributes replaced at run time; /repo is not edited)"]
     ctx.trusted.append("source translator harness/lib/pysrc.py (python floats read as reals; see its docstring) for the source tie")
-    ctx.clauses_proved.append("source tie: get_wavevec_from and the medium_wavevec expression of calc_cross_sections, translated from the current source text on every run, are proved equal to the model wave vector; inverse scaling and index substitution restated for the translated source")
+    ctx.clauses_proved.append("source tie: get_wavevec_from and the medium_wavevec expression of calc_cross_sections, translated from the current source text on every run, are proved equal to the model wave vector; inverse scaling and index substitution restated for the translated source; the size parameter and relative index Mie._scat_coeffs hands to the solver (x = k r, m = n / n_m), translated likewise, are proved invariant under scaling of all lengths and under (n, n_m, lambda) -> (n/n_m, 1, lambda/n_m)")
     guarded(ctx, "prove", ctx.prove)
     guarded(ctx, "source-tie", stage_srctie, ctx)
     boot.boot()
